@@ -43,7 +43,30 @@ func Minimize(t *testing.T, prop string, seed uint64, plan, sched []int, class s
 		if hi < len(cur) && test(cur[:hi]) {
 			cur = append([]int(nil), cur[:hi]...)
 		}
-		// 2. chunk deletion
+		// 2. chunk zeroing (keeps the alignment of later choices; zero is the
+		// simplest choice everywhere)
+		for size := len(cur) / 2; size >= 1; size /= 2 {
+			for i := 0; i+size <= len(cur); i += size {
+				allZero := true
+				for _, v := range cur[i : i+size] {
+					if v != 0 {
+						allZero = false
+						break
+					}
+				}
+				if allZero {
+					continue
+				}
+				cand := append([]int(nil), cur...)
+				for j := i; j < i+size; j++ {
+					cand[j] = 0
+				}
+				if test(cand) {
+					cur = cand
+				}
+			}
+		}
+		// 3. chunk deletion
 		for size := len(cur) / 2; size >= 1; size /= 2 {
 			for i := 0; i+size <= len(cur); {
 				cand := append(append([]int(nil), cur[:i]...), cur[i+size:]...)
@@ -54,7 +77,7 @@ func Minimize(t *testing.T, prop string, seed uint64, plan, sched []int, class s
 				}
 			}
 		}
-		// 3. zero / halve values
+		// 4. zero / halve values
 		for i := 0; i < len(cur); i++ {
 			if cur[i] == 0 {
 				continue
